@@ -10,7 +10,6 @@ and the initial orbit must be untouched.  The canonical state includes the hidde
 Listener.prev, Ephem cursor).
 """
 
-import itertools
 import math
 
 import numpy as np
@@ -22,9 +21,11 @@ CLAIM = dict(
     "spans shorter than the 8-point interpolation order, explicit date lists, DateRange objects) on the real Orbit.iter / "
     "Ephem.iter and compares the yielded dates with an exact integer-microsecond range model and every yielded state with "
     "a direct propagate() on fresh objects. Part B is an explicit-state search: all call sequences up to depth 3 (quick) / "
-    "4 (thorough) over 6 operations on one shared orbit, its propagator and two listener objects (7 operations and suspended "
-    "generators resumed for the ephemeris), each history re-executed from scratch on the real objects, the observation and the "
-    "bytes of the initial orbit compared with those of fresh objects.",
+    "4 (thorough) over 7 operations (propagate to two dates, full iteration, iteration abandoned after two items with listeners, "
+    "iteration with listeners, ephem(), propagation of a SECOND orbit bound to the same propagator object) on one shared orbit, its "
+    "propagator and two listener objects; for the ephemeris 9 operations including own-step iterations and the resumption of a "
+    "suspended iterator. Each history is re-executed from scratch on the real objects; the observation (propagate(t*), a listened "
+    "stream with events, bytes and metadata of the initial orbit) must equal that of fresh objects.",
     note="Trusts the integer range model, direct propagate() of a fresh object as the state oracle (its own correctness is the "
     "subject of C05/C06/C07/C09/C16), and that the canonical state (observation + propagator._orbit + Listener.prev + "
     "Ephem cursor + number of suspended generators) determines future behaviour.",
@@ -36,8 +37,9 @@ RULE = (
     "fresh objects; canonical states (observation, hidden fields) are hashed for the distinct-state count; non-trivial = history of length >= 1"
 )
 BOUNDS = {
-    "quick": "part A: 8 propagators x 3 starts x 6 spans x 3 steps x 3 forms (1296 cases before exclusions); part B: all histories of depth <= 3 over 6 operations (259 per propagator, 8 propagators)",
-    "thorough": "part A: as quick plus the Orbit.ephem / ephemeris entry points; part B: depth <= 4 (1 555 histories per propagator)",
+    "quick": "part A: 8 propagators x 3 starts x 6 spans x 3 steps x 3 forms through iter() (1296 cases before exclusions); part B: all histories of depth <= 3 "
+    "over 7 operations (400 per orbit propagator) / 9 operations (820, ephemeris)",
+    "thorough": "part A: the same product through iter(), ephemeris() and ephem(); part B: depth <= 4 (2 801 histories per orbit propagator, 7 381 for the ephemeris)",
 }
 ASSUMPTIONS = [
     "expected dates: start + k*step (k = 0, 1, ...) not beyond stop, the sign of step following the direction of the range; start == stop yields one date",
@@ -50,8 +52,8 @@ ASSUMPTIONS = [
     "listeners are two instances of a Listener subclass defined in the harness (zero crossing of a cartesian coordinate), usable in every frame",
 ]
 NOT_COVERED = (
-    "interleaved consumption of two live iterators sharing listener objects; SoINumerical; stations' listeners (C10); "
-    "ranges outside an ephemeris (documented ValueError)"
+    "interleaved consumption of two live iterators of an orbit propagator (only the ephemeris' suspended own-step iterator is resumed); "
+    "SoINumerical; the library's own listeners (C10); ranges outside an ephemeris (documented ValueError); histories longer than the depth bound"
 )
 
 DELTA = 60_000_000  # us
@@ -260,7 +262,10 @@ def check_contract(case, t):
         return
     exp = expected_dates(fx, start, stop, step)
     direction, short = input_class(fx, start, span, step, form)
-    site = ("Ephem" if fx.is_ephem else "KeplerNum" if fx.numerical else pname) + "." + entry
+    # the three entry points (iter / ephemeris / ephem) share the stream: one signature per defect, entry kept in the case
+    site = ("Ephem" if fx.is_ephem else "KeplerNum" if fx.numerical else pname) + ".iter"
+    if entry == "ephem":
+        exp = sorted(exp)  # an Ephem object is a table ordered by date, not a stream
     cls = short or direction
     t.ev(key if (len(exp) >= 2 or span <= 0) else None)
     t.state(key)
@@ -275,9 +280,12 @@ def check_contract(case, t):
         if form == "list" and isinstance(e, AttributeError):
             cls = "dates-list"
         t.fail(f"{site}/{cls}/raises-{type(e).__name__}", clause, case, [u * 1e-6 for u in exp], repr(e)[:200],
-               f"{pname} start={sname} span={spname} step={stname} form={form}: {type(e).__name__}: {str(e)[:150]}")
+               f"{pname}.{entry} start={sname} span={spname} step={stname} form={form}: {type(e).__name__}: {str(e)[:150]}")
         return
     got_us = [fx.us(o.date) for o in got]
+    if entry == "ephem" and span < 0:
+        # compare in the (descending) order of the request so that the symptom classification below applies
+        got, got_us, exp = got[::-1], got_us[::-1], exp[::-1]
     t.outcome(("A", pname, "n", len(got_us) == len(exp)))
     if got_us != exp:
         grid = set(exp) | (set(range(exp[0], exp[0] + 40 * abs(exp[1] - exp[0]) + 1, abs(exp[1] - exp[0]))) if len(exp) > 1 and span > 0 else set())
@@ -294,7 +302,7 @@ def check_contract(case, t):
         else:
             sym = "wrong-dates"
         t.fail(f"{site}/{cls}/{sym}", clause, case, [u * 1e-6 for u in exp], [u * 1e-6 for u in got_us],
-               f"{pname} start={sname} span={spname} step={stname} form={form}: expected {len(exp)} dates "
+               f"{pname}.{entry} start={sname} span={spname} step={stname} form={form}: expected {len(exp)} dates "
                f"[{exp[0]*1e-6}..{exp[-1]*1e-6}] s, got {len(got_us)}" + (f" [{got_us[0]*1e-6}..{got_us[-1]*1e-6}] s" if got_us else ""))
     # ---- states: equal to a direct propagation on a fresh object ----------------------------------
     worst = None
@@ -462,7 +470,7 @@ class World:
         return tuple(out)
 
 
-def compare_obs(a, b, tol):
+def compare_obs(a, b):
     """max state difference and list of structural differences between two observations."""
     diffs = []
     worst = 0.0
@@ -510,7 +518,7 @@ def check_history(case, t):
     except LIBERR as e:
         t.fail(f"{site}/history/observe-raises-{type(e).__name__}", clause, case, "no exception", repr(e)[:200], f"{pname} history {hist}")
         return
-    worst, diffs = compare_obs(obs, fresh, 0.0)
+    worst, diffs = compare_obs(obs, fresh)
     t.state(("B", pname, [(u, y.tobytes().hex(), e) for u, y, e in obs["stream"]], obs["prop"][1].tobytes().hex(), tuple(map(str, obs["initial"])), w.hidden()))
     t.outcome(("B", pname, len(obs["stream"]), sum(1 for _, _, e in obs["stream"] if e)))
     ok = t.margin("B: observation after a history vs fresh objects (bitwise expected) / 1e-9", worst, 1e-9)
@@ -532,9 +540,10 @@ def units(tier, seed):
     entries = ["iter"] if tier == "quick" else ["iter", "ephemeris", "ephem"]
     for pname in PROPS:
         for entry in entries:
-            cases = [dict(part="A", prop=pname, start=s, span=sp, step=st, form=f, entry=entry)
-                     for s, _ in STARTS for sp, _ in SPANS for st, _ in STEPS for f in FORMS]
-            u.append((cfg, dict(part="A", cases=cases)))
+            for s, _ in STARTS:
+                cases = [dict(part="A", prop=pname, start=s, span=sp, step=st, form=f, entry=entry)
+                         for sp, _ in SPANS for st, _ in STEPS for f in FORMS]
+                u.append((cfg, dict(part="A", cases=cases)))
     depth = 3 if tier == "quick" else 4
     for pname in PROPS:
         for first in [None] + ops_of(pname):
